@@ -23,7 +23,7 @@ ASSUMPTIONS = [
 
 
 def gen(draw):
-    case = P.gen_case(draw, nsamples=(1, 3), depth=(2, 25), paired_share=25, clip_share=15, eqx_share=10, unsorted_gt_share=15)
+    case = P.gen_case(draw, nsamples=(1, 3), depth=(2, 25), paired_share=25, skip_share=12, clip_share=15, eqx_share=10, unsorted_gt_share=15)
     samples = case["samples"]
     chroms = [c["name"] for c in case["contigs"]]
     opts = {"tag": draw(st.sampled_from(["PS", "PS", "HP"])), "only_snvs": draw(st.integers(0, 4)) == 0,
